@@ -74,7 +74,7 @@ def defaultDb : Bytes := ofString "food.yaml"
 def defaultLog : Bytes := ofString "log.yaml"
 def defaultLayout : Bytes := ofString "2006/01/02"
 def defaultMaxDepth : Int := 10
-def devNull : Bytes := ofString "/dev/null"
+def devNull : Bytes := App.devNull
 /-- upper bound accepted by validateOptions (fix for C08) -/
 def maxAllowedDepth : Int := 10000
 
